@@ -1,0 +1,102 @@
+//! Trace tap: a thread-local vector of internal events, drained by the simulator after each call.
+//! Taps never draw randomness and never read a clock.
+
+use std::cell::{Cell, RefCell};
+
+#[derive(Clone, Debug, PartialEq)]
+pub enum Event {
+    /// A half connection was created with the given parameters.
+    HcCreated {
+        tx_frame_base_id: u32,
+        rx_frame_base_id: u32,
+        tx_frame_window_size: u32,
+        rx_frame_window_size: u32,
+        tx_packet_base_id: u32,
+        rx_packet_base_id: u32,
+        tx_packet_window_size: u32,
+        rx_packet_window_size: u32,
+        tx_bandwidth_limit: u32,
+        tx_alloc_limit: usize,
+        rx_alloc_limit: usize,
+        keepalive_interval_ms: Option<u64>,
+    },
+    /// A sent frame was accepted as acknowledged for the first time.
+    FrameAcked { frame_id: u32 },
+    /// An acknowledgement group passed validation (known frames, correct nonce parity).
+    AckGroupAccepted { base_id: u32, bitfield: u32 },
+    /// The sender's packet window base moved.
+    PacketBaseAdvanced { old: u32, new: u32 },
+    /// A stale TimeSensitive packet was discarded from the send queue.
+    TsDropped { len: usize },
+    /// A packet was taken from the send queue and assigned a sequence id.
+    PacketEmitted { sequence_id: u32, len: usize, channel_id: u8 },
+    /// The receiver discarded a packet for lack of receive allocation.
+    RxOverAlloc { sequence_id: u32, alloc_size: usize },
+    /// The rate controller processed a feedback report.
+    Feedback {
+        now_ms: u64,
+        rtt_sample_ms: u64,
+        receive_rate: u32,
+        loss_rate: f64,
+        rate_limited: bool,
+        rtt_before_s: Option<f64>,
+        rtt_after_s: f64,
+        x_before: u32,
+        x_after: u32,
+        mode_before: u8,
+        mode_after: u8,
+        doubled: bool,
+    },
+    /// The no-feedback timer expired.
+    NoFeedbackExpired { now_ms: u64, x_before: u32, x_after: u32, mode: u8 },
+    /// The loss history was re-initialised.
+    ResetLossRate { p: f64 },
+}
+
+thread_local! {
+    static EVENTS: RefCell<Vec<(u64, Event)>> = RefCell::new(Vec::new());
+    static CURRENT: Cell<u64> = Cell::new(0);
+    static NEXT_ID: Cell<u64> = Cell::new(1);
+    static ENABLED: Cell<bool> = Cell::new(true);
+}
+
+/// Allocates an identifier for a new half connection on this thread.
+pub fn new_id() -> u64 {
+    NEXT_ID.with(|c| {
+        let id = c.get();
+        c.set(id + 1);
+        id
+    })
+}
+
+/// Restarts identifier allocation and clears pending events.
+pub fn reset() {
+    NEXT_ID.with(|c| c.set(1));
+    CURRENT.with(|c| c.set(0));
+    EVENTS.with(|e| e.borrow_mut().clear());
+}
+
+pub fn set_enabled(enabled: bool) {
+    ENABLED.with(|c| c.set(enabled));
+}
+
+/// Marks the half connection whose code is about to run.
+pub fn set_current(id: u64) {
+    CURRENT.with(|c| c.set(id));
+}
+
+pub fn current() -> u64 {
+    CURRENT.with(|c| c.get())
+}
+
+pub fn emit(event: Event) {
+    if ENABLED.with(|c| c.get()) {
+        let id = current();
+        EVENTS.with(|e| e.borrow_mut().push((id, event)));
+    }
+}
+
+/// Takes all events recorded since the last call, tagged with the half connection id.
+pub fn drain() -> Vec<(u64, Event)> {
+    EVENTS.with(|e| std::mem::take(&mut *e.borrow_mut()))
+}
